@@ -270,3 +270,14 @@ pub fn unhx(s: &str) -> Vec<u8> {
     }
     out
 }
+
+/// bookkeeping for the evidence: the largest allocation request seen per kind of guarded operation, relative to the input
+pub static ALLOC_NOTES: std::sync::Mutex<Vec<(String, usize, usize)>> = std::sync::Mutex::new(vec![]);
+pub fn note_alloc(op: &str, input: usize, biggest: usize) {
+    let kind = op.split(':').next().unwrap_or(op).to_string();
+    let mut g = ALLOC_NOTES.lock().unwrap();
+    match g.iter_mut().find(|(k, _, _)| *k == kind) {
+        Some(e) => { if biggest > e.2 { e.1 = input; e.2 = biggest; } }
+        None => g.push((kind, input, biggest)),
+    }
+}
